@@ -264,6 +264,10 @@ func (e *Engine) callFunction(s *State, fr *Frame, dst *ssa.Call, f *ssa.Functio
 		e.applyAts(s, fr, anchor, "after", cc, args, v, site)
 	}
 	// built-in models first
+	if v, handled := e.modelOps(s, fr, dst, key, f, args, site); handled {
+		setResult(v)
+		return nil, false
+	}
 	if v, succ, handled, done := e.modelBufio(s, fr, dst, key, f, args, site); handled {
 		if done {
 			return succ, true
